@@ -33,21 +33,38 @@ TEMPLATES = [
     ('commit-rollback', [['new', False, 41], ['commit', False, 0], ['rawwrite', False, 42], ['rollback', False, 0], ['rawwrite', False, 43]]),
     ('dbcommit', [['rawupdate', False, 1], ['new', False, 51], ['dbcommit', False, 0], ['new', False, 52]]),
     ('read-then-write', [['select', False, 0], ['select', False, 0], ['new', False, 61], ['select', False, 0], ['rawwrite', False, 62]]),
+    # flushes that contain ONLY many-to-many link changes (executemany on the link table through _exec_sql without start_transaction)
+    ('m2m-only-flush-raise', [['load', False, 2], ['loadu', False, 2], ['link', False, [2, 2]], ['flush', False, 0], ['select', False, 0], ['raise', False, 0]]),
+    ('m2m-only-unlink-link', [['load', False, 1], ['loadu', False, 1], ['unlink', False, [1, 1]], ['loadu', False, 3], ['link', False, [1, 3]], ['flush', False, 0], ['rollback', False, 0],
+                              ['load', False, 4], ['loadu', False, 2], ['link', False, [4, 2]]]),
+    ('m2m-implicit-flush', [['load', False, 3], ['loadu', False, 1], ['link', False, [3, 1]], ['select', False, 0], ['rawwrite', False, 71], ['raise', False, 0]]),
+    ('m2m-mixed-commit', [['load', False, 5], ['loadu', False, 2], ['link', False, [5, 2]], ['new', False, 81], ['commit', False, 0], ['load', False, 6], ['loadu', False, 3],
+                          ['link', False, [6, 3]], ['rawwrite', False, 82]]),
 ]
 
 
 def random_program(rng, tag):
     ops, v, upd = [], tag * 100, [1, 2, 3, 4, 5, 6]
     rng.shuffle(upd)
+    pairs = [(t, u) for t in (2, 3, 4, 5, 6) for u in (1, 2, 3)]
+    rng.shuffle(pairs)
+    tl, ul = set(), set()
     for _ in range(rng.randrange(2, 7)):
         r = rng.random()
+        if r < 0.25 and pairs:
+            t, u = pairs.pop()
+            if t in tl: continue                      # one link per T object and cache (the collection's own SELECT happens once)
+            if t not in tl: ops.append(['load', False, t]); tl.add(t)
+            if u not in ul: ops.append(['loadu', False, u]); ul.add(u)
+            ops.append(['link', False, [t, u]])
+            continue
         if r < 0.3: v += 1; ops.append(['new', False, v])
         elif r < 0.55: v += 1; ops.append(['rawwrite', False, v])
         elif r < 0.65 and upd: ops.append(['rawupdate', False, upd.pop()])
         elif r < 0.75: ops.append(['select', False, 0])
         elif r < 0.82: ops.append(['flush', False, 0])
         elif r < 0.92: ops.append(['commit' if rng.random() < 0.7 else 'dbcommit', False, 0])
-        elif r < 0.97: ops.append(['rollback', False, 0])
+        elif r < 0.97: ops.append(['rollback', False, 0]); tl.clear(); ul.clear()
         else:
             ops.append(['raise', False, 0]); break
     return ops
@@ -69,6 +86,8 @@ def commit_units(ops, fails_at_end):
     for op, _c, arg in ops:
         if op == 'new' or op == 'rawwrite': cur.append(('ins', arg))
         elif op == 'rawupdate': cur.append(('upd', arg))
+        elif op == 'link': cur.append(('link', arg[0], arg[1]))
+        elif op == 'unlink': cur.append(('unlink', arg[0], arg[1]))
         elif op in ('commit', 'dbcommit'): units.append(cur); cur = []
         elif op in ('rollback', 'dbrollback'): cur = []
         elif op == 'raise': return units
@@ -76,10 +95,13 @@ def commit_units(ops, fails_at_end):
     return units
 
 
-def applied_writes(rows_before, rows_after):
+def applied_writes(rows_before, rows_after, links_before=None, links_after=None):
     """set of write descriptors visible in the file"""
     before = {r[0]: r[1] for r in rows_before}
     out, unknown = set(), []
+    lb = set(map(tuple, links_before or [])); la = set(map(tuple, links_after or []))
+    for t, u in la - lb: out.add(('link', t, u))
+    for t, u in lb - la: out.add(('unlink', t, u))
     for rid, v in rows_after:
         if rid not in before: out.add(('ins', v))
         elif before[rid] != v:
@@ -105,10 +127,13 @@ def descriptor(sqlinfo):
     if m: return ('ins', args[0] if m.group(1) == '?' else int(m.group(1)))
     m = re.match(r'(?i)update T set v = v \+ 1000 where id = (\d+)', sql)
     if m: return ('upd', int(m.group(1)))
+    if sql.upper().startswith('INSERT INTO "T_U"') and args and len(args) == 1: return ('link', args[0][0], args[0][1])
+    if sql.upper().startswith('DELETE FROM "T_U"') and args and len(args) == 1: return ('unlink', args[0][0], args[0][1])
     return None
 
 
 ROWS0 = [[i, 0] for i in range(1, 7)]
+LINKS0 = [[1, 1]]
 _cache = {}
 
 
@@ -170,7 +195,7 @@ def correspondence(ctx):
         except cc.Unmodelled as e:
             disagreements.append({'what': 'observation outside the modelled vocabulary: %s' % e, 'input': c}); continue
         if not c['faults']: base_writes[(c['name'], c['shape'])] = (o['writes'], [e[:6] for e in o['trace']])
-        applied, unknown = applied_writes(o['rows_before'], o['rows_after'])
+        applied, unknown = applied_writes(o['rows_before'], o['rows_after'], o['links_before'], o['links_after'])
         pos = positions_of(applied, o['writes'])
         if unknown or pos is None:
             disagreements.append({'what': 'database content after the session is not explained by the write statements of the trace', 'input': c,
@@ -191,7 +216,7 @@ def correspondence(ctx):
         dist['crash_children_exit9' if want_status == 9 else 'crash_children_exit0'] += 1
         bw = base_writes.get((c['name'], c['shape']))
         if bw is None: continue
-        applied, unknown = applied_writes(ROWS0, o['rows'])
+        applied, unknown = applied_writes(ROWS0, o['rows'], LINKS0, o['links'])
         pos = positions_of(applied, bw[0])
         if unknown or pos is None:
             disagreements.append({'what': 'database content after the crash is not explained by the write statements of the program', 'input': c, 'impl': o['rows']}); continue
@@ -233,8 +258,8 @@ def oracle_failures(r):
     kinds = {}
     for c, o in zip(r['base'], r['outs0']):
         if 'harness_error' not in o: kinds[(c['name'], c['shape'])] = [e[0] + (':' + e[1] if e[1] else '') for e in o['trace']]
-    def judge(kind, c, rows_before, rows_after, idx, payload):
-        applied, unknown = applied_writes(rows_before, rows_after)
+    def judge(kind, c, rows_before, rows_after, idx, payload, lb=None, la=None):
+        applied, unknown = applied_writes(rows_before, rows_after, lb, la)
         ok = not unknown and frozenset(applied) in allowed_states(c['ops'])
         if ok: return
         names = kinds.get((c['name'], c['shape']), [])
@@ -248,7 +273,7 @@ def oracle_failures(r):
         if 'harness_error' in o or o.get('skipped'): continue
         evals += 1
         idx = c['faults'][0] if c['faults'] else None
-        judge('error', c, o['rows_before'], o['rows_after'], idx, {'kind': 'error', 'case': {k: c[k] for k in ('shape', 'start', 'ops', 'faults', 'name')}})
+        judge('error', c, o['rows_before'], o['rows_after'], idx, {'kind': 'error', 'case': {k: c[k] for k in ('shape', 'start', 'ops', 'faults', 'name')}}, o['links_before'], o['links_after'])
         if c['faults']: nontriv.add(json.dumps([c['name'], c['shape'], 'error', c['faults']]))
     for c, o in zip(r['ccases'], r['couts']):
         if 'harness_error' in o:
@@ -257,7 +282,7 @@ def oracle_failures(r):
                 seen.add(key); fl.append(Failure(key, 'crash run failed: %s' % o['harness_error'][-300:], {'kind': 'crash', 'case': c}))
             continue
         evals += 1
-        judge('crash', c, ROWS0, o['rows'], c['crash_at'], {'kind': 'crash', 'case': c})
+        judge('crash', c, ROWS0, o['rows'], c['crash_at'], {'kind': 'crash', 'case': c}, LINKS0, o['links'])
         nontriv.add(json.dumps([c['name'], c['shape'], 'crash', c['crash_at']]))
     return fl, evals, len(nontriv)
 
